@@ -117,7 +117,7 @@ func c02MppMenu(w *mintops.W) []string {
 	return ops
 }
 
-func c02Specs(quick bool) []*bfs.Spec {
+func c02OwnSpecs(quick bool) []*bfs.Spec {
 	fees := []uint{0, 100, 2500}
 	d := 3
 	if !quick {
@@ -148,7 +148,7 @@ func c02Specs(quick bool) []*bfs.Spec {
 var c02All = specMap(c02Specs(true), c02Specs(false))
 
 func init() {
-	register(&Prop{ID: "C02", Level: "model_checking", QuickBudget: 100 * time.Second, ThoroughBudget: 25 * time.Minute,
+	register(&Prop{ID: "C02", Level: "model_checking", QuickBudget: 300 * time.Second, ThoroughBudget: 25 * time.Minute,
 		Run: func(c *rt.Ctx) {
 			c.Cov["rule"] = "E3, one search per input_fee_ppk (quick {0,100,2500}, thorough {0,1,100,999,1000,2500}) plus one with MPP: every history up to the depth bound over {mint quote, settle, mint x {exact, less, +1, 2^63+2^63 wrap-around, amount 3}, swap x {inputs-fee, +1, inputs, wrap-around} on single / paired / mixed-keyset inputs and on the same proof twice (witness / DLEQ field changed), melt quote (external, external with a non-round msat amount, forged invoice carrying the payment hash of an own unpaid mint quote, internal, MPP partial incl. parts of 0 and 1500 msat), melt with inputs exactly amount+reserve+fee and one less x {Succeeded, Failed->Failed, Pending}, poll x {Succeeded, Failed}, rotate to a second fee}; Lightning model charges the whole fee limit; invariant in every state, in msat: outstanding ecash (model and the mint's own signature store, whichever is larger) + Lightning outflow incl. fee limits (+ in-flight beyond locked inputs) <= Lightning inflow + internal settlements, and every fee limit handed to the backend <= the quote's fee_reserve"
 			var main, deep []*bfs.Spec
@@ -178,4 +178,9 @@ func init() {
 			return bfs.ReplayFile("C02", c02All, p)
 		},
 	})
+}
+
+// c02Specs: the property's own searches plus the shallow search over the union of all mint-level menus (seqcommon.go).
+func c02Specs(quick bool) []*bfs.Spec {
+	return append(c02OwnSpecs(quick), unionSpecs("C02", nil, quick)...)
 }
